@@ -125,7 +125,22 @@ def strict_eq(a, b):
 
 
 def latin1(s):
-    return all(ord(c) < 256 for c in s)
+    return all(ord(c) < 256 for c in s) and not long_digit_run(s)
+
+
+_RUN = None
+
+
+def long_digit_run(s):
+    """CPython refuses int()/str() conversions of more than 4300 decimal digits (sys.int_max_str_digits);
+    such digit runs are outside the model (ASSUMPTIONS)"""
+    global _RUN
+    if len(s) <= 4000:
+        return False
+    if _RUN is None:
+        import re
+        _RUN = re.compile(r"[0-9\xb2\xb3\xb9_ ]{4000,}")
+    return _RUN.search(s) is not None
 
 
 def env(h, w):
